@@ -54,7 +54,9 @@ func Run(r *vf.Run) {
 				if err != nil {
 					return 0, nil, nil, fmt.Errorf("generator discard: %v", err)
 				}
-				blt.Pkg.Prog.Build()
+				if ps := corpus.SafeBuild(blt.Pkg.Prog); len(ps) > 0 {
+					return 0, nil, nil, fmt.Errorf("panic: [mode %s] %s\nsource:\n%s", m, ps[0], src)
+				}
 				fns := corpus.Functions(blt.Pkg.Prog)
 				n += len(fns)
 				for _, is := range checkFns(fns, st) {
@@ -87,7 +89,10 @@ func Run(r *vf.Run) {
 			var all []irwf.Issue
 			n := 0
 			for _, m := range ms {
-				_, fns := corpus.Build(pkgs, m)
+				_, fns, ps := corpus.BuildSafe(pkgs, m)
+				if len(ps) > 0 {
+					return 0, nil, nil, fmt.Errorf("panic: [mode %s] %s", m, ps[0])
+				}
 				n += len(fns)
 				for _, is := range checkFns(fns, st) {
 					is.Msg = "[mode " + m.String() + "] " + is.Msg
